@@ -236,12 +236,24 @@ def reply_settles(P, R, cl, rule='C03.MPT.2'):
             continue
         replyp = f.params[2]
         rel = rel_sites[0]
-        for s in f.sites():
-            if s.ev['k'] != 'ret':
+        # single-exit form: `int release = 1; ... release = 0; ... if (release) { clear the bit ... }` - the places where
+        # the flag is set to the value that skips the release stand for the early returns
+        skips = []
+        for g in f.guards(rel.bid):
+            if is_var(g[0]) and g[0]['name'] in f.flag_locals() and isinstance(const_of(g[2]), int):
+                want = (g[1], const_of(g[2]))
+                for t in f.stores():
+                    if t.ev['k'] == 'store' and is_var(t.ev.get('lhs'), g[0]['name']) and isinstance(const_of(t.ev.get('rhs')), int):
+                        v = const_of(t.ev['rhs'])
+                        holds_ = {'==': v == want[1], '!=': v != want[1], '<': v < want[1], '>': v > want[1], '<=': v <= want[1], '>=': v >= want[1]}[want[0]]
+                        if not holds_:
+                            skips.append(t)
+        for s in list(f.sites()):
+            if s.ev['k'] != 'ret' and s not in skips:
                 continue
             # after the lookup: the release is reachable from an ancestor that also reaches this return, and the
             # return is not the release path itself
-            if s.bid in f.reach([rel.bid]) or rel.bid == s.bid:
+            if s not in skips and (s.bid in f.reach([rel.bid]) or rel.bid == s.bid):
                 continue
             gs = f.guards(s.bid)
             matched = any(isinstance(g[0], dict) and is_var(g[0]) and g[1] == '<' and on_path(g[2], 'used') for g in gs) or \
